@@ -877,6 +877,13 @@ func (vfs *MemFS) Rename(oldpath, newpath string) error {
 
 			return &os.LinkError{Op: op, Old: oldpath, New: newpath, Err: nErr}
 		}
+
+		// The root directory can't be renamed and a directory can't be moved into itself :
+		// as for rename(2), this does not depend on the permissions of the user.
+		if oChild == node(oParent) || oChild == node(nParent) ||
+			strings.HasPrefix(nPI.Path(), oPI.Path()+string(vfs.PathSeparator())) {
+			return &os.LinkError{Op: op, Old: oldpath, New: newpath, Err: vfs.err.InvalidArgument}
+		}
 	case *fileNode, *symlinkNode:
 		// Renaming a file to itself or to another hard link of itself does nothing.
 		if oPI.Path() == nPI.Path() || (nChild != nil && oChild == nChild) {
@@ -889,7 +896,8 @@ func (vfs *MemFS) Rename(oldpath, newpath string) error {
 	}
 
 	// The owner of the renamed entry matters only in a directory with the sticky bit.
-	if oParent.stickyFor(vfs.User()) && oChild != node(oParent) {
+	// The entry is neither oParent nor nParent, whose locks are held.
+	if oParent.stickyFor(vfs.User()) {
 		oChild.Lock()
 		owner := oChild.isOwner(vfs.User())
 		oChild.Unlock()
@@ -905,11 +913,6 @@ func (vfs *MemFS) Rename(oldpath, newpath string) error {
 
 	switch c := oChild.(type) {
 	case *dirNode:
-		// The root directory can't be renamed and a directory can't be moved into itself.
-		if oChild == node(oParent) || strings.HasPrefix(nPI.Path(), oPI.Path()+string(vfs.PathSeparator())) {
-			return &os.LinkError{Op: op, Old: oldpath, New: newpath, Err: vfs.err.InvalidArgument}
-		}
-
 		// A directory can't replace a file or a symbolic link.
 		if !vfs.isNotExist(nErr) {
 			nErr = vfs.err.NotADirectory
